@@ -22,6 +22,9 @@ from ..sqlsmt import values as V
 from ..sqlsmt.sqlite_model import MODELLED_FUNCTIONS
 
 PID = "C01"
+# The SQLite dialect renders round(x) as TRUNC(x + 0.5), wrong for every argument <= -1/2: known finding
+# sqlite-round-trunc-negative (dynamic region in regions.py); round outside that region is still checked.
+ROUND_IN_C01 = True
 REPLAYS_PER_CLASS = 3
 
 
@@ -44,6 +47,8 @@ def build_items(tier: str, seed: int) -> Tuple[List[dict], Dict[str, Any]]:
     for fam, term in G.special_families():
         add(fam, term)
     for fam, term in G.same_field_chains():
+        add(fam, term)
+    for fam, term in G.real_family(with_round=ROUND_IN_C01):
         add(fam, term)
     before = len(items)
     for fam, term in G.deep_bool((2, 3, 4), G.bool_atoms(), rng, {4: 300} if quick else {}):
